@@ -357,6 +357,73 @@ static void emitAPValue(json::OStream &J, const APValue &V, QualType T, ASTConte
   }
 }
 
+// Fold a (possibly non-const) aggregate initialiser by walking its semantic InitListExpr; leaves are folded by clang's
+// constant evaluator. Used for tables such as options[], _mi_heap_empty, tld_empty.
+static void emitInit(json::OStream &J, const Expr *E, QualType T, ASTContext &Ctx, int depth = 0) {
+  if (!E || depth > 8) { J.value(nullptr); return; }
+  const Expr *S = E->IgnoreParenImpCasts();
+  if (const auto *IL = dyn_cast<InitListExpr>(S)) {
+    if (IL->isSyntacticForm() && IL->getSemanticForm()) IL = IL->getSemanticForm();
+    QualType CT = IL->getType().getCanonicalType();
+    if (const RecordType *RT = CT->getAs<RecordType>()) {
+      const RecordDecl *rd = RT->getDecl();
+      J.object([&] {
+        if (rd->isUnion()) {
+          if (const FieldDecl *fd = IL->getInitializedFieldInUnion()) {
+            if (IL->getNumInits() > 0) {
+              J.attributeBegin(fd->getNameAsString().empty() ? "_anon" : fd->getNameAsString());
+              emitInit(J, IL->getInit(0), fd->getType(), Ctx, depth + 1);
+              J.attributeEnd();
+            }
+          }
+          return;
+        }
+        unsigned i = 0;
+        for (const FieldDecl *fd : rd->fields()) {
+          if (fd->isUnnamedBitfield()) continue;
+          if (i >= IL->getNumInits()) break;
+          std::string nm = fd->getNameAsString();
+          if (nm.empty()) nm = "_anon" + std::to_string(i);
+          J.attributeBegin(nm);
+          emitInit(J, IL->getInit(i), fd->getType(), Ctx, depth + 1);
+          J.attributeEnd();
+          ++i;
+        }
+      });
+      return;
+    }
+    if (const ConstantArrayType *AT = Ctx.getAsConstantArrayType(CT)) {
+      uint64_t n = AT->getSize().getZExtValue();
+      J.array([&] {
+        for (uint64_t i = 0; i < n && i < 4096; ++i) {
+          if (i < IL->getNumInits()) emitInit(J, IL->getInit(i), AT->getElementType(), Ctx, depth + 1);
+          else if (IL->hasArrayFiller()) emitInit(J, IL->getArrayFiller(), AT->getElementType(), Ctx, depth + 1);
+          else J.value(nullptr);
+        }
+      });
+      return;
+    }
+    if (IL->getNumInits() == 1) { emitInit(J, IL->getInit(0), T, Ctx, depth + 1); return; }
+    J.value(nullptr);
+    return;
+  }
+  if (isa<ImplicitValueInitExpr>(S)) { J.value(0); return; }
+  if (const auto *SL = dyn_cast<StringLiteral>(S)) {
+    if (SL->getCharByteWidth() == 1) { J.object([&] { J.attribute("str", SL->getBytes()); }); return; }
+  }
+  Expr::EvalResult R;
+  if (!E->isValueDependent() && E->getType()->isIntegralOrEnumerationType() && E->EvaluateAsInt(R, Ctx)) {
+    const llvm::APSInt &i = R.Val.getInt();
+    if (i.isSigned() ? i.isSignedIntN(63) : i.isIntN(62)) J.value((int64_t)i.getExtValue());
+    else J.value(llvm::toString(i, 10));
+    return;
+  }
+  Expr::EvalResult R2;
+  if (E->EvaluateAsRValue(R2, Ctx)) { emitAPValue(J, R2.Val, E->getType(), Ctx, depth + 1); return; }
+  if (E->isNullPointerConstant(Ctx, Expr::NPC_ValueDependentIsNotNull)) { J.value(nullptr); return; }
+  J.object([&] { J.attribute("expr", S->getStmtClassName()); });
+}
+
 class Consumer : public ASTConsumer {
 public:
   void HandleTranslationUnit(ASTContext &Ctx) override {
@@ -517,11 +584,10 @@ public:
       if (const auto *cat = Ctx.getAsConstantArrayType(vd->getType())) J.attribute("arr", (int64_t)cat->getSize().getZExtValue());
       if (!vd->getType()->isIncompleteType()) J.attribute("size", (int64_t)Ctx.getTypeSizeInChars(vd->getType()).getQuantity());
       if (vd->hasInit()) {
-        if (const APValue *v = vd->evaluateValue()) {
-          J.attributeBegin("val");
-          emitAPValue(J, *v, vd->getType(), Ctx);
-          J.attributeEnd();
-        }
+        J.attributeBegin("val");
+        if (const APValue *v = vd->evaluateValue()) emitAPValue(J, *v, vd->getType(), Ctx);
+        else emitInit(J, vd->getInit(), vd->getType(), Ctx);
+        J.attributeEnd();
       }
     });
     OS.flush();
